@@ -91,6 +91,32 @@ def fixed_program(sg, reps):
         junk = [bytearray(61 * (k % 7 + 1)) for k in range(2000 * (_ + 1))]     # perturb the heap between repetitions
     return digs
 
+def persistent_program(sg, reps):
+    """layer OBJECTS built once (eval mode: nothing is documented to change) and one fixed batch; forward + backward repeated
+    on the same objects - every repetition must give the same bits (outputs, gradients, buffers)"""
+    nn = sg.nn
+    bn1 = nn.BatchNorm1d(3, eps=1e-3); bn2 = nn.BatchNorm2d(2, eps=1e-2, momentum=0.5); lin = nn.Linear(3, 2); conv = nn.Conv2d(2, 2, 2); do = nn.Dropout(0.5)
+    for k, L in enumerate((bn1, bn2)):
+        C = L.running_mean.shape[0]
+        L.running_mean = sg.Tensor(np.cos(np.arange(C) + k) * 0.5); L.running_var = sg.Tensor(1.0 + 0.25 * np.sin(np.arange(C) + k))
+        L.weight.data[...] = 1.0 + 0.1 * np.arange(C); L.bias.data[...] = 0.05 * np.arange(C)
+    lin.weight.data[...] = np.sin(np.arange(6) * 0.9).reshape(2, 3); lin.bias.data[...] = 0.0
+    conv.weight.data[...] = np.cos(np.arange(16) * 0.4).reshape(2, 2, 2, 2); conv.bias.data[...] = [0.0, 0.25]
+    mods = (bn1, bn2, lin, conv, do)
+    for m in mods: m.eval()
+    digs = []
+    for r in range(reps):
+        for m in mods: m.zero_grad()
+        x = sg.Tensor(np.sin(np.arange(12) * 0.7).reshape(4, 3), requires_grad=True)
+        y = sg.Tensor(np.cos(np.arange(36) * 0.3).reshape(2, 2, 3, 3), requires_grad=True)
+        a = do(lin(bn1(x))); b = conv(bn2(y))
+        loss = (a * a).sum() + (b * b * b).sum()
+        loss.backward()
+        params = [p for m in mods for p in m.parameters()]
+        digs.append(_dig([a.data, b.data, x.grad.data, y.grad.data] + [p.grad.data for p in params if p.grad is not None]
+                         + [bn1.running_mean.data, bn1.running_var.data, bn2.running_mean.data, bn2.running_var.data]))
+    return digs
+
 def fanout_program(sg):
     """one float32 tensor feeding seven branches whose gradient contributions differ by many orders of magnitude: the bits of
     x.grad depend on the ORDER in which the contributions are accumulated, which must not depend on object addresses"""
@@ -115,6 +141,7 @@ def table(L):
             for s in SEEDS:
                 t["|".join(prog) + f"@{s}"] = run_program(sg, prog, s)
         t["fixed"] = fixed_program(sg, 5)
+        t["fixed_persistent_layers"] = persistent_program(sg, 5)
         from synapgrad.nn.utils import data as D
         labs = ["cat", "dog", "bird", "cat", "emu", "dog", "ant", "bird"]
         t["fixed_onehot_strings"] = [_dig([np.asarray(D.one_hot_encode(np.array(labs)))]), _dig([np.asarray(D.one_hot_encode(labs))])]
@@ -243,6 +270,9 @@ def run(tier, seed):
                           "case": {"kind": "process", "prog": k, "hashseed": hs, "junk": junk}})
     if len(set(base["fixed"])) != 1:
         viols.append({"kind": "fixed-program:depends-on-repetition", "detail": f"digests of 5 repetitions: {base['fixed']}", "case": {"kind": "fixed"}})
+    if len(set(base["fixed_persistent_layers"])) != 1:
+        viols.append({"kind": "fixed-program:depends-on-repetition", "detail": "eval-mode BatchNorm1d/2d + Linear + Conv2d + Dropout objects built once, the same batch pushed "
+                      f"forward and backward 5 times: digests {base['fixed_persistent_layers']}", "case": {"kind": "fixed_persistent_layers"}})
     cov = {"states": len(progs), "transitions": sum(len(p) for p in progs) * len(SEEDS) * 2, "traces_validated_against_impl": r["evaluations"] + nproc_ok * len(base),
            "evaluations": r["evaluations"], "distinct_nontrivial": r["distinct_nontrivial"], "samples": r["samples"], "exhaustive": True,
            "fresh_interpreters": nproc_ok, "digests_per_interpreter": len(base), "history_independence_families": len(pair_cases),
@@ -250,7 +280,7 @@ def run(tier, seed):
            "rule": f"all {len(progs)} programs of length <= {L} over {len(LETTERS)} random-consuming letters x seeds {SEEDS}: run / re-seed / re-run in "
                    f"process (bitwise digests of every produced array, gradient and parameter); programs of length <= {Lw} again in {len(envs)} fresh "
                    "interpreters with PYTHONHASHSEED in {0,1,2,4242,...} with and without 10^5 junk allocations (identical digest tables); a fixed "
-                   "conv/pool/log_softmax forward+backward repeated 5 times; each letter under the scripted random source twice (no draw bypasses "
+                   "conv/pool/log_softmax forward+backward repeated 5 times, and eval-mode layer objects (BatchNorm1d/2d, Linear, Conv2d, Dropout) built once and driven forward+backward 5 times; each letter under the scripted random source twice (no draw bypasses "
                    "the generators manual_seed seeds); history independence: for every op family of both catalogues, all ordered pairs (A, B) over ~6 "
                    "near-miss configurations x 2 dtypes - B after A in one process must give the bits B gives in a fresh process; states = programs, transitions = letter executions"}
     return {"level": "model_checking", "violations": viols, "coverage": cov,
